@@ -2,6 +2,7 @@
 
 LAYER_DEFAULTS = {
     'tracer': {'quick': {'n': 60, 'size': 40, 'shards': 2}, 'thorough': {'n': 400, 'size': 120, 'shards': 16}},
+    'conc': {'quick': {'n': 4, 'size': 20, 'shards': 1}, 'thorough': {'n': 40, 'size': 25, 'shards': 2}},
     'diff': {'quick': {'n': 250, 'size': 20, 'shards': 4}, 'thorough': {'n': 6000, 'size': 30, 'shards': 16}},
     'calltracer': {'quick': {'n': 100, 'size': 10, 'shards': 2}, 'thorough': {'n': 2000, 'size': 10, 'shards': 16}},
     'frame': {'quick': {'n': 150, 'size': 10, 'shards': 2}, 'thorough': {'n': 3000, 'size': 10, 'shards': 16}},
@@ -74,6 +75,15 @@ PROPS = {
         'trusted_base': TB_DIFF + TB_M4 + TB_M5 + TB_GEN,
         'assumptions': [],
         'partial': 'as C01; withLog log collection of the call tracer is compared with upstream but not modelled',
+    },
+    'C17': {
+        'modules': ['Artela.Props.C17', 'Artela.Proofs.GenFacts', 'Artela.Props.C07Frame'],
+        'runs': [{'layer': 'conc'}],
+        'trusted_base': TB_GEN + ['Go memory model, sync.Pool, atomic.Bool and map reads are NOT modelled; the race detector (thorough tier) and '
+                                  'parallel/sequential comparison are search support only',
+                                  'syntactic global-write table: assignments, element assignments, mutating uint256 methods (also through a local alias), address-of'],
+        'assumptions': ['the Aspect runtime pool of aspect-core is outside /repo', 'a write to shared data that is not one of the extracted syntactic forms would escape the table'],
+        'partial': 'PARTIAL: data-race freedom is a runtime property no executable model exhibits; proved: projection under no-shared-writes (regenerated facts), copy-on-write of tables, cancellation stops without back edges and closes bookkeeping',
     },
     'C19': {
         'modules': ['Artela.Props.C19'],
